@@ -46,14 +46,19 @@ def count_form(e: ast.expr, env: dict[str, tuple]) -> Optional[tuple]:
                 return ("ceil", a[1], b[1])  # (a + b - 1)//b
             if a[0] == "minus1":
                 return ("floor_m1", a[1], b[1])  # (a - 1)//b
-        # duration // period with both signed the same way
+        # duration // period with both signed the same way: floor((N*dt + r)/(P*dt)) = floor(N/P) for 0 <= r < dt
         if a and b and a[0] == "dur" and b[0] == "per":
             return ("floor", "N", "P")
+        # (-duration) // period = -ceil(duration/period): equals -ceil(N/P) only when r = 0
+        if a and b and a[0] == "neg" and a[1][0] == "dur" and b[0] == "per":
+            return ("neg", ("lattice-only", "ceil(duration/period)"))
     if isinstance(e, ast.UnaryOp) and isinstance(e.op, ast.USub):
         a = count_form(e.operand, env)
         if a:
             if a[0] == "negceil":
                 return ("ceil", a[1], a[2])
+            if a[0] == "neg":
+                return a[1]
             return ("neg", a)
     if isinstance(e, ast.BinOp) and isinstance(e.op, ast.Add):
         # 1 + (a - 1)//b = ceil(a/b) for a >= 1
@@ -90,31 +95,36 @@ def fmt(c: Optional[tuple]) -> str:
         return "?"
     if c[0] in ("floor", "ceil"):
         return f"{c[0]}({c[1]}/{c[2]})" + (f"{c[3]:+d}" if len(c) > 3 else "")
+    if c[0] == "lattice-only":
+        return c[1]
     return str(c)
 
 
 def trigger_rule(prog: Program, rep: Report) -> None:
     rule = "R07.1"
     fi = prog.role_func("output", "update")
+    from ..program import expand_locals
+
     ifs = [n for n in walk_no_nested(fi.node) if isinstance(n, ast.If)]
     writes = [n for n in walk_no_nested(fi.node) if isinstance(n, ast.Call) and unparse(n.func) == "self.write"]
     ok = False
-    step_var = None
-    for g in ifs:
-        t = g.test
+    step_src = None
+    guards = [g for g in ifs if any(any(x is w for x in ast.walk(g)) for w in writes)]
+    for g in guards:
+        t = expand_locals(g.test, fi.node)
         inner = None
-        if isinstance(t, ast.Compare) and isinstance(t.ops[0], ast.Eq) and unparse(t.comparators[0]) == "0":
+        if isinstance(t, ast.Compare) and len(t.ops) == 1 and isinstance(t.ops[0], ast.Eq) and unparse(t.comparators[0]) == "0":
             inner = t.left
         elif isinstance(t, ast.UnaryOp) and isinstance(t.op, ast.Not):
             inner = t.operand
         if isinstance(inner, ast.BinOp) and isinstance(inner.op, ast.Mod) and unparse(inner.right) == "self.output_period_step":
-            step_var = unparse(inner.left)
-            ok = any(any(x is w for x in ast.walk(g)) for w in writes) and not g.orelse
-    rep.check(rule, fi.qual, "write iff step % output_period_step == 0", ok and len(writes) == 1, what_bad=f"trigger is {[short(g.test) for g in ifs]} with {len(writes)} write call(s): records are due exactly at the steps that are multiples of the period", what_ok="step % P == 0", loc=fi.loc())
-    stepdef = [n for n in walk_no_nested(fi.node) if isinstance(n, ast.Assign) and unparse(n.targets[0]) == (step_var or "step")]
-    rep.check(rule, fi.qual, "step is the timer's current step", bool(stepdef) and unparse(stepdef[0].value) in ("self.modules['time'].step", "self.timer.step"), what_bad=f"step = {unparse(stepdef[0].value) if stepdef else None}", what_ok="timer.step", loc=fi.loc())
-    arg_ok = len(writes) == 1 and [unparse(a) for a in writes[0].args] == ["self.modules['state']"]
-    rep.check(rule, fi.qual, "the model state is what gets written", arg_ok, what_bad=f"write called with {[unparse(a) for a in writes[0].args] if writes else None}", what_ok="self.modules['state']", loc=fi.loc())
+            step_src = unparse(inner.left)
+            ok = not g.orelse
+    unguarded = [w for w in writes if not any(any(x is w for x in ast.walk(g)) for g in ifs)]
+    rep.check(rule, fi.qual, "write iff step % output_period_step == 0", ok and len(writes) == 1 and len(guards) == 1 and not unguarded, what_bad=f"trigger is {[short(expand_locals(g.test, fi.node)) for g in guards]} with {len(writes)} write call(s): records are due exactly at the steps that are multiples of the period, with no further condition", what_ok="step % P == 0", loc=fi.loc())
+    rep.check(rule, fi.qual, "step is the timer's current step", step_src in ("self.modules['time'].step", "self.timer.step"), what_bad=f"step = {step_src}", what_ok="timer.step", loc=fi.loc())
+    arg_ok = len(writes) == 1 and [unparse(expand_locals(a, fi.node)) for a in writes[0].args] == ["self.modules['state']"]
+    rep.check(rule, fi.qual, "the model state is what gets written", arg_ok, what_bad=f"write called with {[unparse(expand_locals(a, fi.node)) for a in writes[0].args] if writes else None}", what_ok="self.modules['state']", loc=fi.loc())
     init = prog.role_func("output", "__init__")
     order = []
     for st in init.node.body:
@@ -155,7 +165,7 @@ def trip_count_rule(prog: Program, rep: Report) -> None:
                     pass
     main = prog.func("main.main")
     loops = [n for n in walk_no_nested(main.node) if isinstance(n, ast.For) and c19._is_time_loop(n)]
-    tc = c19.trip_count(loops[0].iter) if len(loops) == 1 else None
+    tc = c19.trip_count(loops[0].iter, main.node) if len(loops) == 1 else None
     facts_ok = init_step is not None and inc_v == 1 and warm_step is not None and tc is not None and tc.endswith("Nsteps")
     rep.check(rule, "-", f"loop facts: initial step {init_step}, +{inc_v} per update, warm step {warm_step}, trip count {tc}", facts_ok, what_bad="cannot derive the sequence of steps the trigger sees", what_ok="steps derived from TimeKeeper.__init__/update, Model.__init__, main", loc="ladim/main.py")
     if not facts_ok:
@@ -174,33 +184,86 @@ def trip_count_rule(prog: Program, rep: Report) -> None:
     # predicted number of records
     init = prog.role_func("output", "__init__")
     env = {"timer.Nsteps": ("sym", "N"), "self.timer.Nsteps": ("sym", "N"), "self.output_period_step": ("sym", "P"), "self.output_period": ("per",), "timer.stop_time - timer.start_time": ("dur",)}
-    assigns = []  # (guard text or None, form, node)
+    from ..program import expand_locals
+
+    def X(e):
+        return expand_locals(e, init.node)
+
+    for k_, v_ in list(env.items()):  # the same atoms with local temporaries (timer = modules["time"]) expanded
+        env.setdefault(unparse(X(ast.parse(k_, mode="eval").body)), v_)
+
+    def split_guard(test: ast.expr):
+        """-> (skip_initial requirement: True/False/None, indicator: None | "NmodP" | "durmodper" | "?")"""
+        parts = test.values if isinstance(test, ast.BoolOp) and isinstance(test.op, ast.And) else [test]
+        skip, ind = None, None
+        for p_ in parts:
+            t = unparse(X(p_)).replace("self.skip_initial", "skip_initial")
+            if t in ("skip_initial",):
+                skip = True
+            elif t in ("not skip_initial", "not (skip_initial)"):
+                skip = False
+            else:
+                q = X(p_)
+                if isinstance(q, ast.Compare) and len(q.ops) == 1 and isinstance(q.ops[0], (ast.NotEq, ast.Gt)) and unparse(q.comparators[0]) in ("0", "np.timedelta64(0)", "np.timedelta64(0, 's')"):
+                    q = q.left
+                if isinstance(q, ast.BinOp) and isinstance(q.op, ast.Mod):
+                    a, b = count_form(q.left, env), count_form(q.right, env)
+                    if a and b and a[0] == "sym" and b[0] == "sym" and (a[1], b[1]) == ("N", "P"):
+                        ind = "NmodP"
+                    elif a and b and a[0] == "dur" and b[0] == "per":
+                        ind = "durmodper"
+                    else:
+                        ind = "?"
+                else:
+                    ind = "?"
+        return skip, ind
+
+    assigns = []  # (skip requirement, indicator, kind "set"/"add", form or increment, node)
     for st in init.node.body:
-        if isinstance(st, ast.Assign) and unparse(st.targets[0]) == "self.num_records":
-            assigns.append((None, count_form(st.value, env), st))
+        cands = []
+        if isinstance(st, (ast.Assign, ast.AugAssign)):
+            cands.append(((None, None), st))
         if isinstance(st, ast.If):
             for n in st.body:
-                if isinstance(n, ast.Assign) and unparse(n.targets[0]) == "self.num_records":
-                    assigns.append((unparse(st.test), count_form(n.value, env), n))
+                cands.append((split_guard(st.test), n))
             for n in st.orelse:
-                if isinstance(n, ast.Assign) and unparse(n.targets[0]) == "self.num_records":
-                    assigns.append((f"not ({unparse(st.test)})", count_form(n.value, env), n))
+                sk, ind = split_guard(st.test)
+                cands.append(((None if sk is None else (not sk), "?" if ind else None) if (ind or sk is not None) else (None, "?"), n))
+        for (sk, ind), n in cands:
+            if isinstance(n, ast.Assign) and unparse(n.targets[0]) == "self.num_records":
+                assigns.append((sk, ind, "set", count_form(X(n.value), env), n))
+            elif isinstance(n, ast.AugAssign) and unparse(n.target) == "self.num_records" and isinstance(n.op, ast.Add) and isinstance(n.value, ast.Constant) and isinstance(n.value.value, int):
+                assigns.append((sk, ind, "add", n.value.value, n))
+            elif isinstance(n, ast.AugAssign) and unparse(n.target) == "self.num_records":
+                assigns.append((sk, "?", "add", None, n))
     if not assigns:
         raise AnalysisError("Output.__init__: no assignment to self.num_records")
 
     def predicted(skip_initial: bool):
         val = None
-        for guard, form, node in assigns:
-            if guard is None:
+        for sk, ind, kind, form, node in assigns:
+            if sk is not None and sk != skip_initial:
+                continue
+            if ind == "?":
+                return ("unknown-guard", node)
+            if kind == "set":
+                if ind is not None:
+                    return ("unknown-guard", node)
                 val = (form, node)
             else:
-                g = guard.replace("self.skip_initial", "skip_initial")
-                if g in ("not skip_initial", "not (skip_initial)"):
-                    if not skip_initial:
-                        val = (form, node)
-                elif g == "skip_initial":
-                    if skip_initial:
-                        val = (form, node)
+                if val is None or val[0] is None or form is None:
+                    return ("unknown-guard", node)
+                f = val[0]
+                if ind is None:
+                    if f[0] in ("floor", "ceil"):
+                        off = (f[3] if len(f) > 3 else 0) + form
+                        val = ((f[0], f[1], f[2], off) if off else (f[0], f[1], f[2]), node)
+                    else:
+                        return ("unknown-guard", node)
+                elif ind == "NmodP" and f[:3] == ("floor", "N", "P") and len(f) == 3 and form == 1:
+                    val = (("ceil", "N", "P"), node)  # floor(N/P) + [P does not divide N]
+                elif ind == "durmodper" and f[:3] == ("floor", "N", "P") and len(f) == 3 and form == 1:
+                    val = (("lattice-only", "floor(N/P) + [duration % period != 0]"), node)
                 else:
                     return ("unknown-guard", node)
         return val
@@ -211,6 +274,9 @@ def trip_count_rule(prog: Program, rep: Report) -> None:
             rep.add(rule, init.qual, f"num_records, {label}", None, f"predicted count {fmt(p[0]) if p and p[0] != 'unknown-guard' else '?'} / trip count {fmt(want)} outside the rewrite set (undecided)", init.loc())
             continue
         form, node = p
+        if form[0] == "lattice-only":
+            rep.bad(rule, init.qual, f"num_records, {label}: `{short(node, 70)}`", f"predicted number of records {fmt(form)} is computed from clock durations; it equals the {fmt(want)} trigger hits only when stop - start is a whole number of steps. Abstract counterexample: Nsteps a multiple of the period in steps and (stop - start) % dt != 0 gives one record too many, the last file is never completed and its particle variables are never written", init.loc(node))
+            continue
         rep.check(rule, init.qual, f"num_records, {label}: `{short(node.value, 70)}`", form == want, what_bad=f"predicted number of records {fmt(form)} but the trigger fires {fmt(want)} times (N = Nsteps, P = period in steps): when P does not divide N the file is closed one record early / late and the next write hits a closed dataset", what_ok=f"{fmt(form)} = number of trigger hits", loc=init.loc(node))
     # skip_initial is set exactly for warm starts
     c2 = prog.func("configure.configure_v2")
@@ -413,9 +479,14 @@ MA = "ladim/main.py"
 MO = "ladim/model.py"
 TK = "ladim/timekeeper.py"
 AUDIT = [
+    Mut("output-skipped-when-state-empty", ON, "        step = self.modules[\"time\"].step\n        if step % self.output_period_step == 0:\n            logger.info(\"writing, time = %s\", self.modules[\"time\"].time)\n            self.write(self.modules[\"state\"])", "        timer = self.modules[\"time\"]\n        state = self.modules.get(\"state\")\n        if state and timer.step % self.output_period_step == 0:\n            logger.info(\"writing, time = %s\", timer.time)\n            self.write(state)", rule="R07.1"),
+    Mut("benign-update-with-temporaries", ON, "        step = self.modules[\"time\"].step\n        if step % self.output_period_step == 0:\n            logger.info(\"writing, time = %s\", self.modules[\"time\"].time)\n            self.write(self.modules[\"state\"])", "        timer = self.modules[\"time\"]\n        state = self.modules[\"state\"]\n        if timer.step % self.output_period_step == 0:\n            logger.info(\"writing, time = %s\", timer.time)\n            self.write(state)", expect="silent"),
     Mut("trigger-eq1", ON, "        if step % self.output_period_step == 0:", "        if step % self.output_period_step == 1:", rule="R07.1"),
     Mut("trigger-period-seconds", ON, "        if step % self.output_period_step == 0:", "        if step % self.output_period == 0:", rule="R07.1"),
     Mut("period-step-after-sign", ON, "        self.output_period_step = self.output_period // timer.dt\n        if timer.time_reversal:\n            self.output_period = -self.output_period\n", "        if timer.time_reversal:\n            self.output_period = -self.output_period\n        self.output_period_step = self.output_period // timer.dt\n", rule="R07.1"),
+    Mut("num-records-duration-mod", ON, "        if not skip_initial:\n            self.num_records = int(-(-timer.Nsteps // self.output_period_step))\n", "        if not skip_initial and (timer.stop_time - timer.start_time) % self.output_period:\n            self.num_records += 1\n", rule="R07.2"),
+    Mut("num-records-duration-ceil", ON, "        if not skip_initial:\n            self.num_records = int(-(-timer.Nsteps // self.output_period_step))\n", "        if not skip_initial:\n            self.num_records = int(abs(-(-(timer.stop_time - timer.start_time) // self.output_period)))\n", rule="R07.2"),
+    Mut("benign-num-records-steps-mod", ON, "        if not skip_initial:\n            self.num_records = int(-(-timer.Nsteps // self.output_period_step))\n", "        if not skip_initial and timer.Nsteps % self.output_period_step:\n            self.num_records += 1\n", expect="silent"),
     Mut("num-records-floor", ON, "        if not skip_initial:\n            self.num_records = int(-(-timer.Nsteps // self.output_period_step))\n", "", rule="R07.2"),
     Mut("num-records-ceil-always", ON, "        if not skip_initial:\n            self.num_records = int(-(-timer.Nsteps // self.output_period_step))\n", "        self.num_records = int(-(-timer.Nsteps // self.output_period_step))\n", rule="R07.2"),
     Mut("num-records-plus1", ON, "            self.num_records = int(-(-timer.Nsteps // self.output_period_step))", "            self.num_records = int(timer.Nsteps // self.output_period_step) + 1", rule="R07.2"),
